@@ -1464,9 +1464,9 @@ func MultipartBodyDecoder(body io.Reader, header http.Header, schema *openapi3.S
 		subEncFn := func(string) *openapi3.Encoding { return enc }
 
 		var valueSchema *openapi3.SchemaRef
-		if len(schema.Value.AllOf) > 0 {
+		if composed := multipartComposedSchemas(schema.Value); len(composed) > 0 {
 			var exists bool
-			for _, sr := range schema.Value.AllOf {
+			for _, sr := range composed {
 				if valueSchema, exists = sr.Value.Properties[name]; exists {
 					break
 				}
@@ -1512,8 +1512,8 @@ func MultipartBodyDecoder(body io.Reader, header http.Header, schema *openapi3.S
 	}
 
 	allTheProperties := make(map[string]*openapi3.SchemaRef)
-	if len(schema.Value.AllOf) > 0 {
-		for _, sr := range schema.Value.AllOf {
+	if composed := multipartComposedSchemas(schema.Value); len(composed) > 0 {
+		for _, sr := range composed {
 			for k, v := range sr.Value.Properties {
 				allTheProperties[k] = v
 			}
@@ -1549,6 +1549,24 @@ func MultipartBodyDecoder(body io.Reader, header http.Header, schema *openapi3.S
 	}
 
 	return obj, nil
+}
+
+// multipartComposedSchemas returns, for a body schema that uses allOf, anyOf or oneOf, the schemas that
+// may declare the members of the body: the members of those compositions and the schema itself. It
+// returns nil for a schema without composition.
+func multipartComposedSchemas(schema *openapi3.Schema) openapi3.SchemaRefs {
+	if len(schema.AllOf)+len(schema.AnyOf)+len(schema.OneOf) == 0 {
+		return nil
+	}
+	composed := openapi3.SchemaRefs{{Value: schema}}
+	for _, members := range []openapi3.SchemaRefs{schema.AllOf, schema.AnyOf, schema.OneOf} {
+		for _, sr := range members {
+			if sr != nil && sr.Value != nil {
+				composed = append(composed, sr)
+			}
+		}
+	}
+	return composed
 }
 
 // FileBodyDecoder is a body decoder that decodes a file body to a string.
